@@ -27,8 +27,8 @@ def plan(tier):
         specs = [(2, [("dense", 1, 4)], KW_Q), (2, [("dense", 5, 5)], KW_Q[:5]), (3, [("dense", 1, 3)], KW_Q[:5]),
                  (4, [("dense", 1, 2)], KW_Q[:4])]
     else:
-        specs = [(2, [("dense", 1, 7), ("bounded", 3, 8, 9)], KW_T), (3, [("dense", 1, 4)], KW_Q),
-                 (4, [("dense", 1, 3)], KW_Q[:5])]
+        specs = [(2, [("dense", 1, 6)], KW_T), (2, [("bounded", 3, 7, 8)], KW_Q[:5]),
+                 (3, [("dense", 1, 4)], KW_Q[:5]), (4, [("dense", 1, 2), ("bounded", 2, 3, 3)], KW_Q[:4])]
     tasks, descs = [], []
     for N, regimes, kws in specs:
         tasks += pairs.regime_tasks(N, regimes, ["py", "pyx"], extra={"kws": kws}, nshards=48)
